@@ -33,7 +33,9 @@
    Flush at any stream boundary (the code flushes only above 1 MiB): more behaviours, same theorems.
    A chunk without series rows makes no time_series insert and a chunk without samples no samples insert
    (InsertServiceV2.Request fulfils a request of 0 rows at once), so their scripted outcomes do not count.
-   Not modelled: cache eviction by fastcache (only causes re-announcement), the batching of several requests'
+   fastcache may drop entries at any time (never invents one: it compares full keys): [CacheEvict]; the theorems hold with
+   evictions at arbitrary points, the correspondence does not force any.
+   Not modelled: the batching of several requests'
    rows into one INSERT by the insert service (couples outcomes; the theorems quantify over all outcomes). *)
 From Coq Require Import List ZArith Bool.
 Import ListNotations.
@@ -54,7 +56,9 @@ Inductive action :=
 | Flush (k : nat) (ts_ok spl_ok : bool)                 (* the k-th push in flight crosses 1 MiB: its chunk is sent now, with these insert outcomes *)
 | End (k : nat) (ts_ok spl_ok : bool)                   (* the k-th push in flight completes; outcomes of the inserts of its last chunk *)
 | Abort (k : nat)                                       (* the k-th push in flight turns out malformed: 400, no further insert *)
-| CacheReset.                                           (* the 30-minute ticker fired *)
+| CacheReset                                            (* the 30-minute ticker fired *)
+| CacheEvict (k : nat).                                 (* fastcache dropped the k-th entry (eviction under memory pressure; a lost entry only
+                                                           makes the series be announced again) *)
 
 Definition day_of (ts_ns : Z) : Z := (ts_ns / 1000000000) / 86400.
 
@@ -171,6 +175,7 @@ Definition chunk_size (f : flight) : Z := Z.of_nat (length (f_spl f)).
 Definition step (st : state) (a : action) : state * obs :=
   match a with
   | CacheReset => ({| cache := []; ts_rows := ts_rows st; acked := acked st; pending := pending st |}, OReset)
+  | CacheEvict k => ({| cache := remove_nth k (cache st); ts_rows := ts_rows st; acked := acked st; pending := pending st |}, OReset)
   | Push ss ts_ok spl_ok =>
     let f := begin_req st ss in
     let '(st', ack) := finish st f ts_ok spl_ok (pending st) in
@@ -251,6 +256,7 @@ Definition step_old (st : state) (a : action) : state :=
        acked := if ack then samples_of ss ++ acked st else acked st; pending := pending st |}
   | PushBad ss => {| cache := fst (parse (cache st) ss); ts_rows := ts_rows st; acked := acked st; pending := pending st |}
   | CacheReset => {| cache := []; ts_rows := ts_rows st; acked := acked st; pending := pending st |}
+  | CacheEvict k => {| cache := remove_nth k (cache st); ts_rows := ts_rows st; acked := acked st; pending := pending st |}
   | _ => st
   end.
 Fixpoint run_old (st : state) (h : list action) : state :=
